@@ -240,6 +240,12 @@ func runTLSClient(rt *Runtime, cs *connState, task int) {
 				return
 			}
 		}
+		if si == len(cc.Steps)-1 {
+			// like the inline client, the peer ends its input right after the
+			// last step (so a handler still reading COPY data sees the end of
+			// input at the same logical point as in the plaintext run)
+			break
+		}
 		want := 0
 		if si < len(tc.StepBytes) {
 			want = tc.StepBytes[si]
